@@ -7,6 +7,8 @@ from .. import common as C
 PID = "C17"
 LAYERS = ["Ltx"]
 ORACLES = ("ltx_file_ok",)
+RESTORE_ORACLE = "ltx_restore_image_ok"
+RESTORE_CODES = {80: "restored-size-differs-from-commit", 81: "restored-lock-page-not-zero", 82: "restored-page-differs-from-source"}
 
 CORR = {
     "ltx_lock_pgno": "Ltx/Snapshot.v lockPgno vs ltx.LockPgno",
@@ -81,6 +83,10 @@ def run(v):
                 "(ltx_db_encode) and, on a database file and WAL made of self-describing, mutually different pages on both "
                 "sides of the lock page (six file pages beyond it; page maps empty / WAL pages on both sides), WHERE the "
                 "encoded bytes of each page came from (ltx_db_content; 65536 and 4096 in quick, all eight in thorough); "
+                "(b3) restore grid: the snapshot the real writeLTXFromDB wrote for commit = lockPgno-1, lockPgno (the lock "
+                "page is the LAST page), lockPgno+1, lockPgno+6 is published as TXID 1 of a file replica and restored by the "
+                "real Replica.Restore; decode_lock_zero is evaluated on the restored file (ltx_restore_image_ok: size, lock "
+                "page zero, probed pages; commits lockPgno and lockPgno+1 at 65536 in quick, all four at all sizes in thorough); "
                 "(c) real SQLite databases whose file and header size are extended past 1 GiB with a "
                 "hole, page size 65536 in quick: boundary histories with the FIRST synced size at lockPgno-2, lockPgno-1 "
                 "(exactly 1 GiB), lockPgno, lockPgno+1, each followed by transactions growing the database by 1, 2 and 5 "
@@ -118,6 +124,23 @@ def run(v):
                     {"theorem_or_correspondence": "correspondence (sparse databases)"}, False)
     for iv in stats.get("impl_violations") or []:
         v.violation(iv["signature"], iv["detail"], iv.get("replay") or {}, True)
+    rest_bad = [m for m in mism if m["entry"] == RESTORE_ORACLE]
+    mism = [m for m in mism if m["entry"] != RESTORE_ORACLE]
+    by = {}
+    for m in rest_bad:
+        try:
+            code = int(m["model"], 0)
+        except ValueError:
+            code = -1
+        by.setdefault(code, []).append(m)
+    for code, ms in sorted(by.items()):
+        v.violation("C17/" + RESTORE_CODES.get(code, "restore-oracle-%d" % code),
+                    "Replica.Restore of a snapshot written by the real writeLTXFromDB for a commit around the lock page: "
+                    "decode_lock_zero does not hold of the restored file (size = commit, lock page present and zero, other "
+                    "pages equal to the source's); %d such cases; input = [page size; commit; restored size in pages; "
+                    "whole pages?; probes (pgno, source kind/id, restored kind/id)]" % len(ms),
+                    {"case_lines": C.case_with_defs(cases, ms[0]["line"]), "spec_says": ms[0]["model"],
+                     "how": "./check C17 re-runs the restore grid"}, True)
     spec_bad = [m for m in mism if m["entry"] in ORACLES]
     other = [m for m in mism if m["entry"] not in ORACLES]
     if spec_bad:
